@@ -612,6 +612,7 @@ func crossCompare(shadows []*procJob, ev *Evidence) []string {
 		runs, queries int
 		secs          float64
 		disagree      int
+		incomplete    int
 	}
 	per := map[string]*agg{}
 	for _, sj := range shadows {
@@ -647,8 +648,9 @@ func crossCompare(shadows []*procJob, ev *Evidence) []string {
 				return strings.Join(s, "\n")
 			}
 			if r.Unknown > 0 {
-				out = append(out, fmt.Sprintf("%s: %s answered unknown %d times (cross-check incomplete)", tag, sj.solver, r.Unknown))
-				a.disagree++
+				// the second solver ran out of time on some query: that run says nothing either
+				// way about z3's answers; it is reported in the evidence, not as a disagreement
+				a.incomplete++
 				continue
 			}
 			if r.Paths != p.Paths || r.Sat != p.Sat || r.Unsat != p.Unsat || sites(r) != sites(p) {
@@ -660,7 +662,7 @@ func crossCompare(shadows []*procJob, ev *Evidence) []string {
 	if len(per) > 0 {
 		m := map[string]interface{}{}
 		for k, a := range per {
-			m[k] = map[string]interface{}{"harness_runs_repeated": a.runs, "queries": a.queries, "solver_seconds": a.secs, "disagreements": a.disagree}
+			m[k] = map[string]interface{}{"harness_runs_repeated": a.runs, "queries": a.queries, "solver_seconds": a.secs, "disagreements": a.disagree, "runs_with_unanswered_queries_not_compared": a.incomplete}
 		}
 		ev.Cross = m
 	}
